@@ -46,9 +46,12 @@ impl TopicName {
         let project_id = unparsed.get(PROJECT_PREFIX_LEN..)?;
         let project_id = project_id.get(..project_id.find('/')?)?;
 
-        // Extract the topic ID
-        let start = PROJECT_PREFIX_LEN + project_id.len() + TOPIC_PREFIX_LEN;
-        let topic_id = unparsed.get(start..).map(|s| s.trim_matches('/'))?;
+        // Check that the project is followed by the `/topics/` segment and extract the topic ID
+        let start = PROJECT_PREFIX_LEN + project_id.len();
+        let topic_id = unparsed
+            .get(start..)?
+            .strip_prefix(TOPIC_PREFIX)
+            .map(|s| s.trim_matches('/'))?;
 
         Some(TopicName {
             project_id: project_id.into(),
